@@ -3,15 +3,15 @@ CONSTANTS
   Ops = {"o1", "o2"}
   NoOp = "none"
   MaxId = 4
-  Last0 <- LastWrap
+  Last0 <- LastZero
   MaxItems = 1
   ItemTypes <- EntOnly
-  MaxOrphans = 1
-  Kinds <- KindsAll
-  Tmo = {0, 2}
+  MaxOrphans = 0
+  Kinds <- KindsNoUnb
+  Tmo = {0}
   Horizon = 0
   AllowFaults = FALSE
-  AllowCancel = FALSE
+  AllowCancel = TRUE
   AbstractTime = TRUE
   LeakSearchIdOnDone = FALSE
   AbandonKeepsTargetId = FALSE
